@@ -8,6 +8,8 @@ replays exactly.
           ["uni", w, h, [r,g,b,a]]       uniformly coloured RGBA image
           ["pix", w, h, mode, [..]]      explicit pixel list (putdata)
           ["mode", w, h, m]              pattern in PIL mode m incl. "P+t" (palette + transparent index)
+          ["fn"|"nf", w, h, mode]        flat top / noise bottom half (or the reverse): strips of very
+                                         different compressibility
     kind  "pil"      PIL image built in memory (no file behind it)
           "file"     <Style>Image.from_file(path)
           "pilfile"  <Style>Image(PIL.Image.open(path))   (a PIL source with a readable file)
@@ -75,7 +77,28 @@ def _pil_source(src):
         return im
     if k == "mode":
         return _mode_source(src)
+    if k in ("fn", "nf"):
+        return _flat_noise(src)
     raise ValueError(src)
+
+
+def _flat_noise(src):
+    """["fn", w, h, mode]: flat (compressible) top half, noise (incompressible) bottom half;
+    ["nf", ...] the other way round.  Strips of such an image encode to very different lengths,
+    which is what exposes state shared between the strips of a LINES render."""
+    import hashlib
+
+    from PIL import Image
+
+    k, w, h, mode = src
+    bpp = len(mode)
+    top = h // 2
+    flat = bytes((40, 90, 160, 255)[:bpp]) * (w * top)
+    noise = hashlib.shake_256(f"verif {w}x{h} {mode}".encode()).digest(w * (h - top) * bpp)
+    data = flat + noise if k == "fn" else noise + flat[: w * top * bpp]
+    if k == "nf":
+        data = noise[: w * top * bpp] + bytes((40, 90, 160, 255)[:bpp]) * (w * (h - top))
+    return Image.frombytes(mode, (w, h), data)
 
 
 def _mode_source(src):
@@ -253,6 +276,14 @@ def format_spec(case):
     if case.get("compress") is not None and st != "block":
         tail += f"c{case['compress']}"
     return "1.1" + a + ("+" + tail if tail else "")
+
+
+def resize_terminal(cols, rows, cell=None):
+    """The user resizes the terminal window (cell size unchanged)."""
+    tty = world.W.tty
+    tty.cols, tty.rows = cols, rows
+    if cell:
+        tty.xpx, tty.ypx = cols * cell[0], rows * cell[1]
 
 
 def render(subject, case):
